@@ -13,6 +13,45 @@ TB = ("Trusted: Lean 4.33 kernel; axioms propext/Classical.choice/Quot.sound onl
       "gcc/glibc/ASan; the C harness's abstraction functions and the script generators.")
 
 CLAIMED = {
+    "C05": {
+        "design_ref": "DESIGN.md 4/C05",
+        "text": "Lean 4 theorems over a model of memory.c's unique/shared/weak pointers (object store with self-address stamps, "
+                "blocks with hard/soft counts, every public entry point as its C sequence, malloc answers as parameters, event "
+                "log): ownership invariant for arbitrary operation lists on arbitrarily many objects and blocks (counts_exact, "
+                "mem_live_iff, data_live_iff), clear-then-free of the managed memory exactly in the operation that removes the "
+                "last owner and never twice (destroy/clear_exactly_at_last_owner, free_at_most_once), co-owners' get equal, lock "
+                "yields an owner iff one exists, unique() iff no other reference, no_leak when every pointer is reset, unique "
+                "pointer clear-then-free exactly once. Tied to /repo by differential execution (closure over 3 shared + 2 weak + 2 "
+                "unique objects / 2 allocations, random histories over larger pools) comparing get/unique results, counters and the "
+                "interleaved malloc/free/clear-callback event log; ownership-ledger oracle.",
+        "note": TB + " The harness mirrors the two private structs to dump the counters (a layout change shows up as no-failing-input-found).",
+        "technique": "Lean 4 proof (ownership invariant by induction over operation lists, event-log structure) + model/implementation correspondence check",
+    },
+    "C14": {
+        "design_ref": "DESIGN.md 4/C14",
+        "text": "Lean 4 theorems over the array-view model (object {ptr, off, len}, descriptor {sz, nm, inline|external buffer}, 64-bit "
+                "wrap-around written explicitly in nm*sz, off+end, off+i): invariant off+len <= nm and header+nm*sz = block size "
+                "without wrap for every history (run_ainv), at returns an address inside the live buffer iff index < size and aborts "
+                "otherwise (at_in_buffer, at_abort_iff), slice aborts iff end < beg or off+end > nm as mathematical sums "
+                "(slice_abort_iff), lifetime of the underlying allocation, release only to the sole user, failed allocation leaves "
+                "the object empty. Tied to /repo by differential execution (closure over 3 objects / 2 buffers incl. an external one, "
+                "bounds from the boundary set incl. SIZE_MAX neighbours, allocation failures) comparing size, at/data as (block, "
+                "offset), abort/segv and the allocation log; in-bounds + lifetime oracle.",
+        "note": TB,
+        "technique": "Lean 4 proof (invariant over operation lists with explicit 64-bit arithmetic) + model/implementation correspondence check",
+    },
+    "C20": {
+        "design_ref": "DESIGN.md 4/C20",
+        "text": "Lean 4 theorems over the guarded-pointer store (address -> {self stamp, pointer}): for every public entry point and "
+                "every argument position that reads, transfers or releases through the object, a stray bitwise copy (stamp != "
+                "address) aborts before anything is read, transferred or released through it (stray_aborts, stray_untouched), "
+                "overwrite-only positions never read it, the original keeps working, properly moved objects never abort "
+                "(stamped_preserved, properly_moved_never_abort) over all C05/C14 histories. Tied to /repo by running the property's "
+                "own finite table on the real code (every entry point x argument position x object state {empty, owning, shared, "
+                "weak-only} x copy by assignment / memcpy: 40 aborting pairs) plus random histories; SIGABRT-expected oracle.",
+        "note": TB + " A bitwise copy moved back to the address stamped in its bytes is undetectable by construction and outside the property's domain (excluded by Op.dom and the generators).",
+        "technique": "Lean 4 proof (stamp invariant, per-entry-point guard analysis) + exhaustive table execution on the implementation",
+    },
     "C03": {
         "design_ref": "DESIGN.md 4/C03",
         "text": "Lean 4 theorems over a model of hash.c that keeps the mechanism (bucket array with clean bits, sweep index, pending "
